@@ -166,18 +166,25 @@ fn create_diagnostic(err: &SplError, text: &str) -> Diagnostic {
 
 /// Converts a string index to a `Position`.
 /// If the index is out of bounds, the last possible position is returned.
+/// Columns are counted in UTF-16 code units and `\n`, `\r\n` and `\r` end a line,
+/// as required by the LSP specification.
 pub fn as_position(index: usize, text: &str) -> Position {
     let mut line = 0;
     let mut character = 0;
-    for (i, c) in text.char_indices() {
-        if i == index {
+    let mut chars = text.char_indices().peekable();
+    while let Some((i, c)) = chars.next() {
+        if i >= index {
             break;
         }
-        if c == '\n' {
-            line += 1;
-            character = 0;
-        } else {
-            character += 1;
+        match c {
+            '\r' if matches!(chars.peek(), Some((_, '\n'))) => {
+                // `\r\n` is one line break, which is completed by the `\n`
+            }
+            '\n' | '\r' => {
+                line += 1;
+                character = 0;
+            }
+            _ => character += c.len_utf16() as u32,
         }
     }
     Position { line, character }
@@ -198,7 +205,10 @@ fn as_index_range(pos_range: &PosRange, text: &str) -> TextRange {
 }
 
 /// Converts a text `Position` to an index.
-/// If the position is out of bounds, the last possible index is returned.
+/// If the character is out of bounds, the end of the line is returned.
+/// If the line is out of bounds, the last possible index is returned.
+/// Columns are counted in UTF-16 code units and `\n`, `\r\n` and `\r` end a line,
+/// as required by the LSP specification.
 ///
 /// Note: This is the insertion index,
 /// so it can be after the last character.
@@ -206,16 +216,20 @@ fn as_index_range(pos_range: &PosRange, text: &str) -> TextRange {
 pub fn get_insertion_index(position: &Position, text: &str) -> usize {
     let mut line = 0;
     let mut character = 0;
-    let pos = (position.line, position.character);
-    for (i, c) in text.char_indices() {
-        if (line, character) == pos {
+    let mut chars = text.char_indices().peekable();
+    while let Some((i, c)) = chars.next() {
+        let is_line_break = c == '\n' || c == '\r';
+        if line == position.line && (character >= position.character || is_line_break) {
             return i;
         }
-        if c == '\n' {
+        if is_line_break {
+            if c == '\r' && matches!(chars.peek(), Some((_, '\n'))) {
+                chars.next();
+            }
             line += 1;
             character = 0;
         } else {
-            character += 1;
+            character += c.len_utf16() as u32;
         }
     }
     text.len()
